@@ -49,6 +49,10 @@ func checkRequireJSON(req *protocol.Request, tagInfo TagInfo) bool {
 }
 
 func keyExist(req *protocol.Request, tagInfo TagInfo) bool {
+	if tagInfo.Skip {
+		// (`json:"-"`: the body is not a source of this field, whatever keys it has)
+		return false
+	}
 	ct := bytesconv.B2s(req.Header.ContentType())
 	if !strings.EqualFold(utils.FilterContentType(ct), consts.MIMEApplicationJSON) {
 		return false
